@@ -358,8 +358,8 @@ LeaveStep(S, a) ==
   ELSE IF a.chan /\ ~c.ischan THEN Reply(S, -1)                        \* channel addressing of a plain group: replies 404 and goes on; not modelled
   ELSE IF ~a.unsub THEN
        (IF AttChan(c, s) # asChan
-        \* addressed with the wrong spelling: the session is removed and answered 404, the online counter is left as it was
-        THEN Reply([S EXCEPT !.cache[t].att = AttTuple({x \in M(c.att) : x.s # s}), !.sess[s].subs = SubsTuple(M(@) \ {t})], 404)
+        \* addressed with the wrong spelling (grp vs chn): refused, nothing is detached
+        THEN Reply(S, 404)
         ELSE Reply(Detach(S, t, s), 200))
   ELSE IF asChan /\ c.per[u].in /\ c.per[u].ischan THEN
        \* a reader unsubscribes from the channel: the chnXXX row is soft-deleted, the reader forgotten
